@@ -38,6 +38,28 @@ def bval(kind):
     return CONST if kind == "const" else kind
 
 
+def spellings(kind):
+    """(name, boundary argument, np.pad keywords) for other ways to write the boundary of a 1-D map_overlap"""
+    if kind == "none":
+        return []
+    if kind == "const":
+        out = []
+        for v in (CONST, 0, 0.0, False):
+            kw = {"mode": "constant", "constant_values": int(v)}
+            out += [(f"scalar:{v!r}", v, kw), (f"tuple:{v!r}", (v,), kw), (f"dict:{v!r}", {0: v}, kw)]
+        return out
+    kw = {"mode": NP_PAD[kind]}
+    return [("string", kind, kw), ("tuple", (kind,), kw)]
+
+
+def stencil_np(p, r, n):
+    """the radius-r stencil of `stencil(r)` applied to the padded 1-D array p, for the n original positions"""
+    if r == 0:
+        return stencil(0)(p)
+    full = stencil(r)(p)
+    return full[r:r + n]
+
+
 def norm_err(e):
     s = type(e).__name__ + ": " + str(e).split("\n")[0]
     return re.sub(r"-?\d+", "#", s)[:90]
@@ -642,6 +664,24 @@ def fam_overlap_values(chk, da, tier):
             except Exception as e:  # noqa: BLE001
                 mo_blocks, merr = None, norm_err(e)
             chk.count(f"map_overlap:{kind}:r{r}")
+            # the same call with the boundary SPELLED differently (scalar / string for all axes, tuple per axis) and with the
+            # constant 0 (a falsy constant is a constant, not "no boundary"); symmetric depths only
+            if merr is None and ld == rd and len(c) > 0:
+                for spell, val, npkw in spellings(kind):
+                    try:
+                        alt = da.map_overlap(stencil(r), x, depth=ld, boundary=val, dtype="int64").compute(scheduler="sync")
+                        p2 = np.pad(a, r, **npkw) if r else a
+                        want2 = stencil_global(r, p2)
+                    except Exception as e:  # noqa: BLE001
+                        chk.count(f"map_overlap:spelling-raises:{spell}")
+                        continue
+                    chk.count(f"map_overlap:spelling:{spell}")
+                    if want2 is not None and (alt.shape != want2.shape or not np.array_equal(alt, want2)):
+                        chk.violation(f"map_overlap with boundary={val!r} ({spell}) differs from NumPy's padded stencil",
+                                      {"chunks": c, "depth": ld, "boundary": repr(val), "radius": r, "data": a.tolist(), "impl": alt.tolist(), "numpy": want2.tolist()},
+                                      signature={"fn": "map_overlap", "boundary": kind, "class": "wrong-value", "spelling": spell})
+                    else:
+                        chk.traces_validated += 1
             chk.case(("map_overlap", c, ld, rd, kind, r, tuple(a.tolist())), nontrivial=len(c) > 1)
             if merr is not None:
                 chk.violation("map_overlap raised: " + merr, {"chunks": c, "depth": (ld, rd), "boundary": kind, "radius": r, "data": a.tolist()},
